@@ -204,13 +204,37 @@ def tr_block(stmts, cont, env, ctx, ret, depth=0):
     raise Unrecognised("statement " + ast.unparse(st)[:80])
 
 
+def find_definition(repo: Path, name: str = "save_parameters", start: str = "torchtree/core/parameter_utils.py", hops: int = 3):
+    """(path, module AST, FunctionDef) of `name`, following `from <module> import name` re-exports from `start`"""
+    path = repo / start
+    for _ in range(hops + 1):
+        tree = ast.parse(path.read_text())
+        for n in tree.body:
+            if isinstance(n, ast.FunctionDef) and n.name == name:
+                return path, tree, n
+        nxt = None
+        for n in tree.body:
+            if isinstance(n, ast.ImportFrom) and any(a.name == name and a.asname in (None, name) for a in n.names):
+                if n.level:  # relative import
+                    base = path.parent
+                    for _i in range(n.level - 1):
+                        base = base.parent
+                    nxt = base.joinpath(*((n.module or "").split("."))) if n.module else base
+                else:
+                    nxt = repo.joinpath(*n.module.split("."))
+                nxt = nxt.with_suffix(".py") if nxt.with_suffix(".py").exists() else nxt / "__init__.py"
+        if nxt is None or not nxt.exists():
+            break
+        path = nxt
+    raise Unrecognised(f"definition of {name} not found from {start}")
+
+
 def translate(repo: Path):
     """returns (lean_source, ok, note)"""
     src_path = repo / "torchtree" / "core" / "parameter_utils.py"
     note = ""
     try:
-        tree = ast.parse(src_path.read_text())
-        fn = next(n for n in ast.walk(tree) if isinstance(n, ast.FunctionDef) and n.name == "save_parameters")
+        src_path, tree, fn = find_definition(repo)
         args = [a.arg for a in fn.args.args]
         if len(args) < 2 or "safely" not in args or "overwrite" not in args:
             raise Unrecognised("signature " + str(args))
